@@ -105,8 +105,9 @@ type syncConfig struct {
 	SenderSize  uint64 `json:"sender_size"`
 	StartDb     int    `json:"start_db"`
 	StartOffset int64  `json:"start_offset"`
-	// Pauses adds a fourth environment answer before every segment: 300 ms without traffic
-	// (shorter than the sender's 500 ms flush period), to produce trickling streams
+	// Pauses adds two environment answers before every segment: 300 ms without traffic (shorter
+	// than the sender's 500 ms flush period, to produce trickling streams) and "all remaining
+	// segments in one write" (a burst)
 	Pauses bool `json:"pauses,omitempty"`
 }
 
@@ -306,7 +307,7 @@ func syncExecuteWith(t *testing.T, cfg syncConfig, segs [][]byte, srv *mredis.Se
 			t0 := time.Now()
 			nchoices := 3
 			if cfg.Pauses {
-				nchoices = 4
+				nchoices = 5
 			}
 			point := func() {
 				n := 0
@@ -327,6 +328,17 @@ func syncExecuteWith(t *testing.T, cfg syncConfig, segs [][]byte, srv *mredis.Se
 				case 3:
 					time.Sleep(300 * time.Millisecond)
 					res.Steps = append(res.Steps, "pause 300ms")
+				case 4:
+					// a burst: everything that is left arrives in one network read
+					var all []byte
+					for _, sg := range segs[i:] {
+						all = append(all, sg...)
+					}
+					ss.Write(all)
+					res.Steps = append(res.Steps, fmt.Sprintf("deliver %d..%d in one write", i, len(segs)-1))
+					for ; i < len(segs); i++ {
+						res.DeliveredAt = append(res.DeliveredAt, time.Since(t0))
+					}
 				case 1:
 					time.Sleep(500 * time.Millisecond)
 					res.Steps = append(res.Steps, "tick")
